@@ -244,6 +244,8 @@ def step (s : DS) (line : String) : DS × String :=
         match ssi.findName k.toArray with
         | none => ({ s with a := some a }, "enotfound")
         | some e =>
+          -- sqascii_PositionByKey (e3f8b5b): an index without record offsets (made from an alignment file) does not describe this file
+          if e.roff < 0 then ({ s with a := some a, dead := true }, "eformat") else
           let (a, st) := position a e.roff.toNat
           ({ s with a := some a, dead := !(st == .ok || st == .eof) }, st.name)
     | _, _ => (s, if s.unmodelled then "unmodelled" else "bad-op")
@@ -263,6 +265,7 @@ def step (s : DS) (line : String) : DS × String :=
         match ssi.findName k.toArray with
         | none => ({ s with a := some a }, "enotfound nomsg")
         | some e =>
+          if e.roff < 0 then finish s a s.sq .eformat else     -- sqascii_PositionByKey, e3f8b5b
           let (a, st) := position a e.roff.toNat
           if st != .ok then finish s a s.sq st else
           let (a, sq, st) := read a s.sq.reuse
@@ -274,6 +277,7 @@ def step (s : DS) (line : String) : DS × String :=
         match ssi.findName k.toArray with
         | none => ({ s with a := some a }, "enotfound nomsg")
         | some e =>
+          if e.roff < 0 then finish s a s.sq .eformat else     -- sqascii_PositionByKey, e3f8b5b
           let (a, st) := position a e.roff.toNat
           if st != .ok then finish s a s.sq st else
           let (a, sq, st) := readInfo a s.sq.reuse
